@@ -108,6 +108,7 @@ fn main() {
         }
         Some("trace") => trace_main(&args),
         Some("c11c") => drive::<simlib::grad::C11ConsumeEngine>(&args),
+        Some("c11e") => drive::<simlib::edited::C11EditedEngine>(&args),
         Some("c11d") => drive::<simlib::io::C11DecodeEngine>(&args),
         Some("c20") => drive::<simlib::conc::C20Engine>(&args),
         Some("c20s") => drive::<simlib::conc::C20StormEngine>(&args),
